@@ -112,6 +112,11 @@ RAISE_IN_EXCEPT = ('raise-in-except', (['def handler():', '    try:', "        r
                                        'handler()', 'ValueError'))
 RAISE_IN_FINALLY = ('raise-in-finally', (['def cleanup():', '    try:', "        raise KeyError('first')", '    finally:', "        raise OSError('in finally')  " + MARK],
                                          'cleanup()', 'OSError'))
+# the frame runs more of its own code (clean-up) after the failure was raised in it and before the failure leaves it
+USER_SOURCES['raise-then-finally'] = (['def guarded():', '    try:', "        raise KeyError('in the try block')  " + MARK, '    finally:', '        done = True', '        other = 2'],
+                                      'guarded()', 'KeyError')
+USER_SOURCES['implicit-then-finally'] = (['def guarded2(v):', '    try:', '        return 10 // v  ' + MARK, '    finally:', "        note = 'cleaning up'", '        note = note.upper()'],
+                                         'guarded2(0)', 'ZeroDivisionError')
 SYNTAX_SOURCES = {
     'syntax-unclosed-paren': 'x = (1,\nprint(x)\n',
     'syntax-bad-indent': 'if True:\nx = 1\n',
